@@ -46,4 +46,5 @@ def roundtrip(value, pyref_policy=None):
 def validate(value, pyref_policy=None):
   """True iff the stub and the real text stage agree on this (concrete) value's document."""
   doc = serialization.Serialization(value, pyref_policy).result
-  return json.loads(json.dumps(doc)) == jsonify(doc)
+  # compared as text, since NaN != NaN as a value
+  return json.dumps(json.loads(json.dumps(doc))) == json.dumps(jsonify(doc))
